@@ -445,6 +445,71 @@ def callable_unit(p, item, tier, seed):
             return
 
 
+
+# ---------------------------------------------------------------- many inputs, few of them significant
+def _wide_function(spec):
+    """(n, picks, kind) -> callable on a list of n bools (depends only on the picked inputs)."""
+    n, picks, kind = spec
+    if kind == "xor":
+        return lambda x: [sum(bool(x[i]) for i in picks) % 2 == 1]
+    if kind == "and":
+        return lambda x: [all(x[i] for i in picks)]
+    return lambda x: [sum(bool(x[i]) for i in picks) * 2 > len(picks), bool(x[picks[0]]) != bool(x[picks[-1]])]
+
+
+def wide_unit(p, item, tier, seed):
+    """The three representations of one function on 9..11 inputs must give the *same answers* (lists included)."""
+    spec = item
+    n, picks, kind = spec
+    fn = _wide_function(spec)
+    rows = [fn(bits_of(j, n)) for j in range(1 << n)]
+    m = len(rows[0])
+    tt = TruthTable([[bool(r[k]) for r in rows] for k in range(m)])
+    py = PyFunction(fn, input_size=n, output_size=m)
+    c = Circuit()
+    ins = [f"x{i}" for i in range(n)]
+    c.add_inputs(ins)
+    ops = tuple(ins[i] for i in picks)
+    if kind == "xor":
+        c.emplace_gate("o0", G.XOR, ops)
+        outs = ["o0"]
+    elif kind == "and":
+        c.emplace_gate("o0", G.AND, ops)
+        outs = ["o0"]
+    else:
+        import itertools as it
+
+        k = len(picks) // 2 + 1
+        terms = []
+        for j, comb in enumerate(it.combinations(ops, k)):
+            c.emplace_gate(f"t{j}", G.AND, comb)
+            terms.append(f"t{j}")
+        c.emplace_gate("o0", G.OR, tuple(terms)) if len(terms) > 1 else c.emplace_gate("o0", G.IFF, (terms[0],))
+        c.emplace_gate("o1", G.XOR, (ops[0], ops[-1]))
+        outs = ["o0", "o1"]
+    c.set_outputs(outs)
+    reprs = {"TruthTable": tt, "PyFunction": py, "Circuit": c}
+    qs = [("get_significant_inputs_of", lambda f, k: list(f.get_significant_inputs_of(k)))] + \
+         [(f"is_dependent_on_input_at(.,{i})", lambda f, k, i=i: f.is_dependent_on_input_at(k, i)) for i in sorted(set(picks) | {0, n - 1})] + \
+         [("is_symmetric_at", lambda f, k: f.is_symmetric_at(k)), ("is_constant_at", lambda f, k: f.is_constant_at(k)), ("is_monotone_at", lambda f, k: f.is_monotone_at(k))]
+    for k in range(m):
+        dep = sorted(i for i in range(n) if any(rows[j][k] != rows[j ^ (1 << (n - 1 - i))][k] for j in range(1 << n)))
+        for qname, call in qs:
+            answers = {}
+            for rname, f in reprs.items():
+                try:
+                    answers[rname] = call(f, k)
+                except Exception as e:  # noqa: BLE001
+                    answers[rname] = f"raised {type(e).__name__}"
+            p.case(("c12w", spec, k, qname), sample=f"{qname} of output {k} of a {kind} over inputs {picks} of {n}: {answers['Circuit']}" if len(p.samples) < 4 else None)
+            same = all(a == answers["Circuit"] and type(a) is type(answers["Circuit"]) for a in answers.values())
+            right = answers["Circuit"] == dep if qname == "get_significant_inputs_of" else True
+            p.queries["unsat" if same and right else "sat"] += 1
+            if not (same and right):
+                p.violation(f"function:wide:{qname.split('(')[0]}", f"{qname} of output {k} of a {kind} over inputs {picks} of {n} inputs: {answers}" + (f", definition {dep}" if not right else ""),
+                            REPLAY_PRELUDE + "from checks import c12\nfrom vlib.report import Partial\n" + f"p=Partial()\nc12.wide_unit(p, {spec!r}, 'quick', 0)\nprint([v['what'][:200] for v in p.violations])\nsys.exit(1 if p.violations else 0)\n")
+                return
+
 # ---------------------------------------------------------------- model completion
 def completion_unit(p, item, tier, seed):
     n, m, mask = item  # mask: tuple of (k,j) don't-care positions
@@ -668,6 +733,11 @@ def run(rep, tier, seed, only=None):
                 k = 1 if (n, m) in ((1, 1), (2, 1), (1, 2)) else (6 if (n, m) != (3, 2) else 16)
                 items += [(n, m, rname, (i, k)) for i in range(k)]
         rep.pmap(shape_unit, items)
+    if sub("wide"):
+        specs = [(9, (1, 8), "xor"), (9, (8, 1), "xor"), (11, (1, 2, 8, 10), "xor"), (10, (0, 9), "and"), (9, (2, 3, 8), "maj"), (11, (10, 3, 9, 1), "and"), (12, (11, 4), "xor")]
+        if thorough:
+            specs += [(n, tuple(random.Random(n * 31 + i).sample(range(n), random.Random(n + i).randint(2, 4))), kind) for n in (9, 10, 11, 12, 13) for i, kind in enumerate(("xor", "and", "maj"))]
+        rep.pmap(wide_unit, specs)
     if sub("callable"):
         rep.pmap(callable_unit, [c[0] for c in _callables()])
     if sub("struct"):
